@@ -374,6 +374,43 @@ def whole_sast_transformers(tier_name):
     return recs
 
 
+URIS = ["a.py", "./a.py", ".ci/a.py", "ci/a.py", "../a.py", ".a.py", "d/.e/a.py"]
+
+
+def _pick(pool, i):
+    k = 0
+    while k < len(pool) - 1:
+        if i % len(pool) == k:
+            return pool[k]
+        k += 1
+    return pool[len(pool) - 1]
+
+
+def sarif_uri_file_identity(codeql: bool, u: int, c: int) -> bool:
+    """A SARIF result is attributed to exactly the file its artifact URI names: through the real Semgrep / CodeQL
+    readers and ResultSet.results_for_rule_and_file, a finding whose URI is one of 7 spellings (plain, ./-prefixed,
+    dot-directory, parent directory, dot-file, nested dot-directory) is returned for a candidate file of the analysed
+    tree iff the candidate IS that path - never for `ci/a.py` when the finding is on `.ci/a.py`.
+    post: _
+    """
+    import codemodder.codeql as codeql_mod
+    import codemodder.semgrep as semgrep_mod
+    from vlib import vfs
+
+    uri, cand = _pick(URIS, u), _pick(URIS, c)
+    region = {"startLine": 3, "startColumn": 1, "endLine": 3, "endColumn": 9}
+    res = {"ruleId": "r1", "message": {"text": "m"}, "locations": [{"physicalLocation": {"artifactLocation": {"uri": uri}, "region": region}}]}
+    name = "CodeQL" if codeql else "Semgrep OSS"
+    data = {"runs": [{"tool": {"driver": {"name": name, "rules": []}}, "results": [res]}]}
+    vfs.json_file("/s/x.sarif", data)
+    rs = (codeql_mod.CodeQLResultSet if codeql else semgrep_mod.SemgrepResultSet).from_sarif("/s/x.sarif")
+    ctx = type("Ctx", (), {"directory": Path("/d")})()
+    got = rs.results_for_rule_and_file(ctx, "r1", Path("/d") / cand)
+    files = rs.files_for_rule("r1")
+    same = Path(uri) == Path(cand)
+    return fin(files == [Path(uri)] and (len(got) == 1) == same and len(got) <= 1)
+
+
 def warmup():
     generic_sound_complete((1, 0, 1, 4), (1, 1, 1, 5))
     generic_separation((1, 0, 1, 4), (1, 2, 1, 4))
@@ -385,6 +422,8 @@ def warmup():
     process_file_short_circuit(True, True, 2, True, True)
     process_file_short_circuit(False, True, 1, False, True)
     change_carries_site_findings((1, 0, 1, 4), (2, 0, 2, 4), True, True)
+    sarif_uri_file_identity(False, 2, 3)
+    sarif_uri_file_identity(True, 1, 0)
 
 
 SPEC = {
@@ -408,11 +447,12 @@ SPEC = {
         "UtilsMixin.filter_by_result / results_for_node / node_is_selected / filter_by_path_includes_or_excludes",
         "FileContext.get_findings_for_location / get_all_findings",
         "BaseCodemod._process_file, ResultSet.results_for_rule_and_file",
+        "SemgrepLocation.from_sarif / CodeQLLocation.from_sarif -> ResultSet.add_result / results_for_rule_and_file / files_for_rule (artifact URI = file identity)",
         "LibcstResultTransformer.report_change / report_change_for_line / lineno_for_node",
         "whole-transformer family: the complete real transformers of sonar:python/secure-random, semgrep:python/harden-pyyaml, defectdojo:python/avoid-insecure-deserialization with a symbolic finding location (native runs, one per z3-enumerated cell)",
     ],
     "bounds": {
-        "quick": "node and finding ranges: 4 unbounded symbolic ints each; two candidate nodes x reported subset; <= 3 findings with symbolic line ranges; <= 2 own findings + foreign-rule and foreign-file decoys",
+        "quick": "node and finding ranges: 4 unbounded symbolic ints each; two candidate nodes x reported subset; <= 3 findings with symbolic line ranges; <= 2 own findings + foreign-rule and foreign-file decoys; artifact URI and candidate file: 7 x 7 path spellings x {Semgrep, CodeQL}",
         "thorough": "same (integer space is unbounded; structure bounds as quick)",
     },
     "assumptions": [
@@ -433,6 +473,7 @@ SPEC = {
         Xh("findings_for_line", 120, 300),
         Xh("process_file_short_circuit", 150, 400),
         Xh("change_carries_site_findings", 150, 400),
+        Xh("sarif_uri_file_identity", 120, 300),
         Xh("planted_loose_match", 60, 120, twin=False, expect="refuted"),
     ],
 }
